@@ -25,9 +25,9 @@ t0 = time.time()
 res = chk.run_harnesses(names, bins, 'X', jobs)
 tag = time.strftime('%H%M%S')
 json.dump(res, open(os.path.join(ROOT, '.build', 'measure-%s.json' % tag), 'w'), indent=1, default=str)
-print('%-46s %-12s %7s %9s %6s  %s' % ('harness', 'status', 'wall', 'clauses', 'sat', 'why'))
+print('%-46s %-12s %7s %9s %6s %5s  %s' % ('harness', 'status', 'wall', 'clauses', 'sat', 'rssGB', 'why'))
 for v in sorted(res, key=lambda v: v['harness']):
-    print('%-46s %-12s %6.0fs %9s %6s  %s' % (v['harness'], v['status'], v['wall_s'], (v.get('stats') or {}).get('clauses', ''), v.get('sat_calls', ''), v['why'][:100]))
+    print('%-46s %-12s %6.0fs %9s %6s %5.1f  %s' % (v['harness'], v['status'], v['wall_s'], (v.get('stats') or {}).get('clauses', ''), v.get('sat_calls', ''), v.get('peak_rss_gb', 0), v['why'][:100]))
     for x in v.get('violations', []):
         print('     VIOL', x['check'], x.get('reproduces'), json.dumps(x.get('native'))[:600])
 print('total %.0fs' % (time.time() - t0))
